@@ -732,6 +732,82 @@ def worker_clients(seed, tier):
                                  'got': ['after the race: ' + str(again)[:200]]})
                 return
 
+    def race_mixed(name, fresh, accesses, nthreads=12, nrounds=None):
+        """like race(), but thread i performs accesses[i % len(accesses)] = (access, canon): the
+        FIRST accesses of different kinds to one shared fresh object happen at once"""
+        expected = [canon(access(fresh())) for access, canon in accesses]
+        for rd in range(nrounds or rounds):
+            obj = fresh()
+            bar = threading.Barrier(nthreads)
+            got = [None] * nthreads
+
+            def client(i):
+                access, canon = accesses[i % len(accesses)]
+                try:
+                    bar.wait()
+                    got[i] = ('ok', canon(access(obj)))
+                except Exception as e:  # noqa: BLE001
+                    got[i] = ('raised', f'{type(e).__name__}: {str(e)[:120]}')
+            ths = [threading.Thread(target=client, args=(i,)) for i in range(nthreads)]
+            for t in ths:
+                t.start()
+            for t in ths:
+                t.join()
+            counts[name] = counts.get(name, 0) + 1
+            bad = [(i, g) for i, g in enumerate(got) if g != ('ok', expected[i % len(accesses)])]
+            if not bad:
+                # whatever was cached / published last answers like a single-threaded object
+                for k, (access, canon) in enumerate(accesses):
+                    again = canon(access(obj))
+                    if again != expected[k]:
+                        bad.append((f'after the race, access {k}', ('ok', again)))
+                        break
+            if bad:
+                failures.append({'object': name, 'round': rd, 'expected': [str(e)[:120] for e in expected],
+                                 'got': [f'thread {i}: {str(g)[:160]}' for i, g in bad[:3]]})
+                return
+
+    # large point arrays with missing elements (placeholder bytes (0, 0)), a box over the origin
+    import pyarrow as pa
+    from spatialpandas.geometry import PointArray
+    nbig = 250000 if tier == 'quick' else 400000
+    rs = np.random.RandomState(3)
+    xy = np.empty((nbig, 2))
+    xy[:, 0] = rs.randint(-2000, 2000, nbig) / 4.0
+    xy[:, 1] = rs.randint(-2000, 2000, nbig) / 4.0
+    miss = rs.rand(nbig) < 0.1
+    xy[miss] = 0.0
+    valid = np.packbits(~miss, bitorder='little')
+    big = PointArray(pa.FixedSizeBinaryArray.from_buffers(
+        pa.binary(16), nbig, [pa.py_buffer(valid.tobytes()), pa.py_buffer(xy.tobytes())]), dtype='float64')
+    obox = (-6.0, -5.0, 7.0, 8.0)
+
+    def cx_canon(r):
+        b = np.asarray(r.bounds, dtype=float)
+        return [int(np.asarray(r.isna()).sum()), len(r), _floats(b[np.lexsort((b[:, 1], b[:, 0]))])]
+    big_accesses = [
+        (lambda a: a.bounds, lambda r: _floats(r)),
+        (lambda a: a.sindex.intersects(np.array(obox)), lambda r: _h(sorted(np.asarray(r).tolist()))),
+        (lambda a: a.build_sindex().cx[obox[0]:obox[2], obox[1]:obox[3]], cx_canon),
+        (lambda a: a.sindex.covers_overlaps(np.array(obox)),
+         lambda r: _h([sorted(np.asarray(r[0]).tolist()), sorted(np.asarray(r[1]).tolist())])),
+    ]
+    race_mixed('PointArray 250k with missing: bounds / sindex / cx at once',
+               lambda: PointArray(big.data, dtype=big.dtype), big_accesses, nrounds=3 if tier == 'quick' else 12)
+    big_ids = np.arange(nbig)
+    race_mixed('GeoSeries 250k with missing: cx / sindex at once',
+               lambda: GeoSeries(PointArray(big.data, dtype=big.dtype), index=big_ids),
+               [(lambda s_: s_.build_sindex().cx[obox[0]:obox[2], obox[1]:obox[3]],
+                 lambda r: _h(sorted(r.index.tolist()))),
+                (lambda s_: s_.sindex.intersects(np.array(obox)), lambda r: _h(sorted(np.asarray(r).tolist()))),
+                (lambda s_: s_.bounds.values, lambda r: _floats(r))],
+               nrounds=2 if tier == 'quick' else 8)
+    race_mixed('GeoDataFrame 250k with missing: cx at once',
+               lambda: GeoDataFrame({'pt': PointArray(big.data, dtype=big.dtype), 'id': big_ids}),
+               [(lambda d: d.build_sindex().cx[obox[0]:obox[2], obox[1]:obox[3]],
+                 lambda r: _h(sorted(r['id'].tolist())))],
+               nrounds=2 if tier == 'quick' else 8)
+
     pts = df0['pt'].array
     pgs = df0['pg'].array
     bounds = np.asarray(pgs.bounds, dtype='float64')
